@@ -194,6 +194,43 @@ def render_buckets(sig, id2name, allow_lines, exclude_lines):
     return files
 
 
+NJUST = 8
+
+
+def render_sound(db, name2id, count):
+    """-> {relative path: content}: the database forms of every instruction as kind sets (tools/x86just.py) and one
+    `decide +kernel` lemma per part: every kind tuple a signature row admits is an instance of a database form."""
+    import x86just
+    forms = {}
+    for f in db["forms"]:
+        if f["name"] in name2id:
+            forms.setdefault(name2id[f["name"]], []).append(({"ANY": 3, "X86": 1, "X64": 2}[f["arch"]], x86just.form_kinds(f)))
+    ids = list(range(1, count))
+    files = {}
+    for p in range(NJUST):
+        s = "/- GENERATED by tools/gen_x86forms.py from db/isa_x86.json (through db/index.js, read by tools/x86just.py) - do not edit. -/\n"
+        s += "import AsmjitVerif.Spec.X86Sound\nimport AsmjitVerif.Gen.X86Sig\nset_option maxRecDepth 1000000\n"
+        s += "namespace AsmjitVerif.Gen.X86Just\nopen AsmjitVerif.X86Sound\n\n"
+        rows = []
+        for i in ids[p::NJUST]:
+            fs = sorted(set((m, tuple(k)) for m, k in forms.get(i, [])))
+            rows.append("  (%d, [%s])" % (i, ", ".join("(%d, [%s])" % (m, ", ".join("0x%x" % x for x in k)) for m, k in fs)))
+        s += "def forms%d : List (Nat × List DbForm) := [\n%s]\n\n" % (p, ",\n".join(rows))
+        s += "theorem sound%d : forms%d.all (instSound AsmjitVerif.Gen.X86Sig.tables) = true := by decide +kernel\n\n" % (p, p)
+        s += "end AsmjitVerif.Gen.X86Just\n"
+        files["AsmjitVerif/Gen/X86Just%d.lean" % p] = s
+    s = "/- GENERATED by tools/gen_x86forms.py -/\n" + "".join("import AsmjitVerif.Gen.X86Just%d\n" % p for p in range(NJUST))
+    s += "set_option maxRecDepth 1000000\nnamespace AsmjitVerif.Gen.X86Just\nopen AsmjitVerif.X86Sound\n\n"
+    s += "def parts : List (List (Nat × List DbForm)) := [%s]\n\n" % ", ".join("forms%d" % p for p in range(NJUST))
+    s += "theorem all_sound : ∀ part ∈ parts, part.all (instSound AsmjitVerif.Gen.X86Sig.tables) = true := by\n  intro part hp\n"
+    s += "  simp only [parts, List.mem_cons, List.not_mem_nil, or_false] at hp\n  rcases hp with " + " | ".join("h" for _ in range(NJUST)) + "\n"
+    s += "".join("  · subst h; exact sound%d\n" % p for p in range(NJUST))
+    s += "\n/-- every instruction id has an entry -/\ntheorem all_ids : ((List.range %d).all fun i => i == 0 || (parts.flatMap id).any (·.1 == i)) = true := by decide +kernel\n" % count
+    s += "\nend AsmjitVerif.Gen.X86Just\n"
+    files["AsmjitVerif/Gen/X86JustAll.lean"] = s
+    return files
+
+
 if __name__ == "__main__":
     import sys
     import gen_names
